@@ -419,7 +419,7 @@ def _roundtrip(b, pt, sc, G, s, case, generated):
                 # a direction saved without an end: the loader derives one (up to the next direction of its kind; documented in
                 # _set_end_times), so only ends that were saved are compared
                 open_ended = {(pid, r[:3]) for pid, rows in a for r in rows if r[3] is None}
-                c = [(pid, sorted((r[:3] + (None,) + r[4:]) if (pid, r[:3]) in open_ended else r for r in rows)) for pid, rows in c]
+                c = [(pid, sorted(((r[:3] + (None,) + r[4:]) if (pid, r[:3]) in open_ended else r for r in rows), key=repr)) for pid, rows in c]
                 a = [(pid, sorted(rows, key=repr)) for pid, rows in a]
                 c = [(pid, sorted(rows, key=repr)) for pid, rows in c]
             ccase = case
